@@ -121,7 +121,7 @@ func (m *pathParamMatcher) Matches(request *heimdall.Request, keys, values []str
 	if len(request.URL.RawPath) != 0 {
 		switch m.slashHandling {
 		case config.EncodedSlashesOff:
-			if strings.Contains(request.URL.RawPath, "%2F") {
+			if containsEncodedSlash(request.URL.RawPath) {
 				return errorchain.NewWithMessage(ErrRequestPathMismatch,
 					"request path contains encoded slashes which are not allowed")
 			}
